@@ -433,7 +433,7 @@ def run(chk):
 
     common.arg_agreement_rule(chk, P, "C04", [("emit", "src/span.rs"), ("emit", "src/macro_hooks.rs"),
                                                ("emit_macros", "src/span.rs"), ("emit", "src/frame.rs")], 20)
-    if chk.tier == "thorough":
+    if True:
         from . import corpus
         corpus.span_expansion_rules(chk, "C04")
     return chk
